@@ -5,7 +5,7 @@ from __future__ import annotations
 import ast
 from typing import Dict, List
 
-from ..astutil import arg_of, call_name, calls, enclosing_loops, guards, kwarg, last_attr, stmt_key, txt, walk_local
+from ..astutil import arg_of, call_name, calls, clone, enclosing_loops, guards, kwarg, last_attr, stmt_key, txt, walk_local
 from ..cfg import CFG
 from ..flow import bound_from, fact_texts, facts_nnf, inline_reaching, nnf_literals, path_facts
 from ..index import UNRESOLVED, AnalysisError
@@ -142,10 +142,13 @@ def r15_1_2(ctx: Ctx) -> None:
                    detail="no test on the minimum length governs the recorded ORF")
         else:
             cond = rename(terms[0] if len(terms) == 1 else ast.BoolOp(op=ast.And(), values=terms), mapping)
-            ok, cex, n = decide(cond, parse("I + 2 - S >= M"))
+            # the ORF runs from S to the last base of the stop codon at I + 2 inclusive: I + 3 - S bases
+            ok, cex, n = decide(cond, parse("I + 3 - S >= M"))
             ctx.ob("R15.1", ORF, sc.single, qual, "minimum length", ok,
-                   "an ORF is recorded iff the distance from its first base to the last base of its stop codon is at least "
-                   "the minimum", detail=f"differs at {cex}" if cex else f"{n} orderings", form=txt(cond))
+                   "an ORF is recorded iff its length (stop codon included) is at least the minimum",
+                   detail=(f"differs at {cex}: an ORF of exactly the minimum length is dropped (the test compares the inclusive end "
+                           f"minus the start, one less than the length)") if cex else f"{n} orderings",
+                   form="recorded iff length - 1 >= minimum" if not ok and decide(cond, parse("I + 2 - S >= M"))[0] else txt(cond))
     except OutsideFragment as err:
         ctx.cannot("R15.1", ORF, sc.single, qual, "minimum length", str(err))
     # R15.2 wrap
@@ -336,7 +339,33 @@ def r15_4(ctx: Ctx) -> None:
                "the end of the last gene seen is moved only under a test that compares the gene with that frontier "
                "(a gene nested in an earlier, longer one must not pull it back)",
                form=f"{stmt_key(node)} under {[txt(t) for t in tests]}")
-        val = affine(inline_reaching(cfg, node, node.value, keep={gene, padding}))
+        inner, monotone, why = node.value, False, ""
+        if isinstance(inner, ast.Call) and call_name(inner) == "max" and len(inner.args) == 2 and any(txt(a) == last for a in inner.args):
+            inner, monotone, why = next(a for a in inner.args if txt(a) != last), True, "max() with the frontier"
+        else:
+            # without max(): the tests on the path must imply that the new value is not behind the frontier
+            class Plain(ast.NodeTransformer):
+                def visit_Call(self, call):  # noqa: N802
+                    self.generic_visit(call)
+                    return call.args[0] if call_name(call) == "int" and len(call.args) == 1 else call
+            names = {f"{gene}.location.start": "g_s", f"{gene}.location.end": "g_e", f"{gene}.start": "g_s", f"{gene}.end": "g_e",
+                     padding: "P", last: "F"}
+            conds = [e if t else ast.UnaryOp(op=ast.Not(), operand=e) for e, t in facts if any(a is loop for a in _anc(e))]
+            try:
+                cond = rename(Plain().visit(clone(conds[0] if len(conds) == 1 else ast.BoolOp(op=ast.And(), values=conds))), names) \
+                    if conds else parse("True")
+                value = rename(Plain().visit(clone(inner)), names)
+                goal = ast.Compare(left=value, ops=[ast.GtE()], comparators=[ast.Name(id="F", ctx=ast.Load())])
+                monotone, cex, _ = decide(cond, ast.fix_missing_locations(goal), mode="implies", pre=parse("g_s < g_e and 0 <= P"))
+                why = "implied by the tests on the path" if monotone else f"can move back, e.g. {cex}"
+            except OutsideFragment as err:
+                why = str(err)
+        ctx.ob("R15.4", ORF, node, qual, f"frontier never moves back#{index}", monotone,
+               "the frontier (how far the genes seen so far reach, less the allowed overlap) only ever advances: a short gene "
+               "nested near the end of a longer one must not pull it back into that gene",
+               detail="" if monotone else f"{why}: genes [100:1000) and [900:995) with padding 10 give the gap (985, ...), 15 bases "
+               "inside the first gene", form=f"{stmt_key(node)}: {why}")
+        val = affine(inline_reaching(cfg, node, inner, keep={gene, padding}))
         ok = val.terms.get(padding) == -1 and any(k.endswith("location.end)") or k.endswith("location.end") for k in val.terms)
         ctx.ob("R15.4", ORF, node, qual, f"frontier value#{index}", ok,
                "the frontier is the gene's end minus the allowed overlap", form=str(val))
